@@ -279,6 +279,12 @@ def judge(ctx, case):
         if nA == nB:
             return None, "rewritten_in_place"
         if nA == with_injected(nB):
+            # "one injected if there is none": the unencoded document's head must not hold a declaration already
+            # (the tree that was serialized, not the re-parse of the unencoded output: optional-tag omission can move a
+            # body-level meta into head on the way back, a listed C13 finding)
+            if any(declares(m, want) is not None for m in head_metas(flat)):
+                return "declaration-injected-although-one-exists", "encoding %s: head of the source already declares %r; bytes %r" % (
+                    enc, [declares(m, want) for m in head_metas(flat)], b[:200])
             return None, "injected"
         return "tree-differs-beyond-the-declaration", "encoding %s: %s" % (enc, canon.diff_text(nB, nA, "unencoded", "encoded"))
 
